@@ -56,8 +56,11 @@ import shutil
 
 from vlib import env
 
-THEOREMS = ["factory_tree_flags", "convert_preserves_obs", "upgrade_preserves_obs", "keeps_treeInv",
-            "reconfigure_composes", "force_destroys_witness", "partial_apply_witness"]
+THEOREMS = ["reconfigure_keeps_any", "convert_preserves_obs", "reconfigure_composes", "forced_path_tip",
+            "forced_synced_preserves", "reconfigure_ok_layout", "already_iff_layout", "refusal_changes_nothing",
+            "force_destroys_witness", "force_moves_tip_witness", "tag_conflict_witness", "partial_apply_witness",
+            "upgrade_preserves_obs", "upgrade_reaches_target", "upgrade_uptodate_iff", "knit_two_pass_witness",
+            "branch_downgrade_witness"]
 RULE = ("case = (history script, dirty flag, source layout x repository placement, target | chain of targets | source "
         "format); non-trivial = the operation succeeds and changes the layout / format; distinct by (layout, target(s), "
         "dirty, history shape)")
@@ -132,9 +135,28 @@ def write_history(wt, rng, tag):
     return revs
 
 
-def make_dirty(wt, rng):
+def flags_of(seedt):
+    """optional 7th element of a location seed: comma separated knobs
+    pm = a pending merge in the dirty tree, cf = a recorded conflict, ms = a versioned file missing from disk,
+    xt = the branch at the bind location has a tag the local branch lacks, ct = ... a DIFFERENT definition of tag0,
+    gt = a tag pointing to a revision that is absent, bh = the branch at the bind location is one revision BEHIND,
+    b2 = a second branch in the shared repository"""
+    return set(x for x in (seedt[6].split(",") if len(seedt) > 6 else []) if x)
+
+
+def make_dirty(wt, rng, flags=(), tag=b"x"):
     d = wt.basedir
     ops = []
+    if "pm" in flags:
+        # an uncommitted merge of a side branch: a second tree parent, whose revision lives in the repository only
+        side = wt.controldir.sprout(env.fresh_dir("c52pm"), revision_id=wt.branch.last_revision()).open_workingtree()
+        with open(side.basedir + "/pside", "wb") as f:
+            f.write(b"pending side\n")
+        side.add(["pside"], ids=[b"pside-id"])
+        _commit(side, "pending side", b"%s-pm" % tag, 20)
+        wt.merge_from_branch(side.branch)
+        shutil.rmtree(side.basedir, ignore_errors=True)
+        ops.append("pending-merge")
     with open(d + "/a", "ab") as f:
         f.write(b"uncommitted\n")
     ops.append("edit")
@@ -151,13 +173,25 @@ def make_dirty(wt, rng):
         ops.append("chmod")
     with open(d + "/unknown.txt", "wb") as f:
         f.write(b"unversioned\n")
+    if "cf" in flags:
+        from breezy.bzr.conflicts import TextConflict
+        wt.add_conflicts([TextConflict("a")])
+        ops.append("conflict")
+    if "ms" in flags:
+        for p in ("dir/b", "b2", "b3", "b4", "n2", "n3", "n4"):
+            if os.path.isfile(os.path.join(d, p)) and wt.is_versioned(p):
+                os.unlink(os.path.join(d, p))
+                ops.append("missing")
+                break
     return ops
 
 
 def build_location(seedt):
-    """seedt = (seed, index, source, shared, dirty, fmt) -> dict(path=..., master=..., ...)"""
+    """seedt = (seed, index, source, shared, dirty, fmt[, flags]) -> dict(path=..., master=..., ...)"""
     from breezy.controldir import ControlDir, format_registry
-    seed, idx, source, shared, dirty, fmt = seedt
+    from breezy.branch import Branch
+    seed, idx, source, shared, dirty, fmt = seedt[:6]
+    flags = flags_of(seedt)
     rng = random.Random(repr(("hist", seed, idx)))
     root = env.fresh_dir("c52")
     cformat = format_registry.make_controldir(fmt)
@@ -168,6 +202,7 @@ def build_location(seedt):
         ControlDir.create(repo_parent, format=cformat).create_repository(shared=True)
     loc = os.path.join(repo_parent, "loc")
     master = os.path.join(root, "master")
+    tag = b"h%d" % idx
     if source in ("tree", "branch"):
         if shared:
             br = ControlDir.create_branch_convenience(loc, force_new_tree=True, format=cformat)
@@ -178,32 +213,51 @@ def build_location(seedt):
             wt.set_root_id(b"root-id")
         except Exception:  # noqa
             pass
-        revs = write_history(wt, rng, b"h%d" % idx)
+        revs = write_history(wt, rng, tag)
         info["parent"] = None
-        if rng.random() < 0.5:
+        if rng.random() < 0.5 or flags & {"xt", "ct", "bh"}:
             # a remembered parent location holding the same history (a bind candidate)
-            wt.controldir.sprout(master, revision_id=wt.branch.last_revision())
+            at = wt.branch.last_revision()
+            if "bh" in flags:
+                at = revs[-2]                                                         # one mainline revision behind
+            wt.controldir.sprout(master, revision_id=at)
             wt.branch.set_parent(master)
             info["parent"] = master
+        if shared and "b2" in flags:
+            # a second branch (with its own tree) in the same shared repository
+            wt.controldir.sprout(os.path.join(repo_parent, "loc2"), revision_id=revs[0])
         if source == "branch":
             wt.controldir.destroy_workingtree()
             wt = None
+        local_branch = Branch.open(loc)
     else:
         mwt = ControlDir.create_standalone_workingtree(master, format=cformat)
         try:
             mwt.set_root_id(b"root-id")
         except Exception:  # noqa
             pass
-        revs = write_history(mwt, rng, b"h%d" % idx)
+        revs = write_history(mwt, rng, tag)
         if source == "checkout":
             os.makedirs(loc, exist_ok=True)
             wt = mwt.branch.create_checkout(loc, lightweight=False)
         else:
             wt = mwt.branch.create_checkout(loc, lightweight=True)
         info["parent"] = master
+        local_branch = wt.branch
+    if local_branch.supports_tags():
+        if "gt" in flags:
+            local_branch.tags.set_tag("ghosttag", b"absent-revision-%d" % idx)
+        if "ct" in flags and source != "lightweight-checkout":
+            local_branch.tags.set_tag("tag0", revs[-1])                     # (a bound branch sets it on its master too)
+        if info["parent"]:
+            mb = Branch.open(master)
+            if "xt" in flags:
+                mb.tags.set_tag("mastertag", revs[0])
+            if "ct" in flags and source != "lightweight-checkout":
+                mb.tags.set_tag("tag0", revs[0])                            # two definitions of tag0
     info["dirty_ops"] = []
     if wt is not None and dirty:
-        info["dirty_ops"] = make_dirty(wt, rng)
+        info["dirty_ops"] = make_dirty(wt, rng, flags, tag)
     info.update(path=loc, master=master if os.path.isdir(master) else None, revs=[r.decode() for r in revs])
     return info
 
@@ -234,14 +288,9 @@ def layout_of(path):
     return out
 
 
-def observe(path):
-    """(tip, {rev: testament sha1}, tags, tree dump | None, status | None, formats)"""
-    from breezy.controldir import ControlDir
-    from breezy import errors
+def branch_obs(br):
+    """tip, revno, revision -> testament sha1 of the whole ancestry, tags, remembered locations"""
     from breezy.bzr.testament import StrictTestament3
-    import hashlib
-    cd = ControlDir.open(path)
-    br = cd.open_branch()
     obs = {}
     with br.lock_read():
         tip = br.last_revision()
@@ -256,11 +305,27 @@ def observe(path):
         obs["testaments"] = tm
         obs["tags"] = ({k: v.decode() for k, v in sorted(br.tags.get_tag_dict().items())}
                        if br.supports_tags() else {})
+    return obs
+
+
+def observe(path, locations=False):
+    """(tip, {rev: testament sha1}, tags, tree dump | None, status | None, formats)"""
+    from breezy.controldir import ControlDir
+    from breezy import errors
+    import hashlib
+    cd = ControlDir.open(path)
+    br = cd.open_branch()
+    obs = branch_obs(br)
+    if locations:
+        tail = lambda u: None if u is None else u.rstrip("/").rsplit("/", 1)[-1]  # noqa
+        # (Converter5to6 turns "no push location" into the empty string: read as "none" here, see the report)
+        obs["locations"] = [tail(br.get_parent()) or None, tail(br.get_bound_location()) or None, tail(br.get_push_location()) or None]
     try:
         wt = cd.open_workingtree()
     except errors.NoWorkingTree:
         obs["tree"] = None
         obs["status"] = None
+        obs["ghost_parents"] = []
         return obs
     with wt.lock_read():
         dump = {}
@@ -278,8 +343,14 @@ def observe(path):
         obs["tree"] = dump
         st = sorted((c.file_id.decode(), tuple(c.path), c.changed_content, tuple(c.versioned), tuple(c.kind), tuple(c.executable))
                     for c in wt.iter_changes(wt.basis_tree()))
-        obs["status"] = dict(changes=st, parents=[p.decode() for p in wt.get_parent_ids()],
-                             unknowns=sorted(wt.unknowns()))
+        parents = wt.get_parent_ids()
+        obs["status"] = dict(changes=st, parents=[p.decode() for p in parents],
+                             unknowns=sorted(wt.unknowns()),
+                             conflicts=sorted((c.typestring, c.path) for c in wt.conflicts()))
+        # a tree parent whose revision the branch's repository does not hold (the next commit records a ghost)
+        repo = wt.branch.repository
+        with repo.lock_read():
+            obs["ghost_parents"] = [p.decode() for p in parents if not repo.has_revision(p)]
     return obs
 
 
@@ -305,7 +376,16 @@ def factory(target):
             "use-shared": R.to_use_shared}[target]
 
 
-def model_state(path, info):
+def bind_location(br):
+    """what _select_bind_location would find for a local branch (read from the branch, not through Reconfigure)"""
+    loc = br.get_bound_location()
+    for getter in (br.get_old_bound_location, br.get_push_location, br.get_parent):
+        if loc is None:
+            loc = getter()
+    return loc
+
+
+def model_state(path, info=None, want_ref=False):
     """the model's view of the location, read from the real objects (not through Reconfigure)"""
     from breezy.controldir import ControlDir
     from breezy.branch import Branch
@@ -317,40 +397,59 @@ def model_state(path, info):
         wt = cd.open_workingtree()
         with wt.lock_read():
             dirty = wt.has_changes()
+    ref = None
     if lay["branch"] == "reference":
         known, synced = True, True
+        if want_ref:
+            ref = branch_obs(br)
     else:
-        loc = br.get_bound_location()
-        for getter in (br.get_old_bound_location, br.get_push_location, br.get_parent):
-            if loc is None:
-                loc = getter()
+        loc = bind_location(br)
         known = loc is not None
         synced = True
         if known:
             try:
-                synced = Branch.open(loc).last_revision() == br.last_revision()
+                rb = Branch.open(loc)
+                synced = rb.last_revision() == br.last_revision()
+                if want_ref:
+                    ref = branch_obs(rb)
             except Exception:  # noqa
                 synced = False
     above = os.path.isdir(os.path.join(os.path.dirname(path), ".bzr", "repository"))
     b = lambda x: "T" if x else "F"  # noqa
-    return "%s %s %s %s %s %s %s" % (b(lay["tree"]), b(dirty), {"local": "u", "bound": "b", "reference": "r"}[lay["branch"]],
-                                     {"none": "n", "local": "o", "shared": "s"}[lay["repo"]], b(above), b(known), b(synced))
+    st = "%s %s %s %s %s %s %s" % (b(lay["tree"]), b(dirty), {"local": "u", "bound": "b", "reference": "r"}[lay["branch"]],
+                                   {"none": "n", "local": "o", "shared": "s"}[lay["repo"]], b(above), b(known), b(synced))
+    return (st, ref) if want_ref else st
 
 
 def short_state(path):
-    lay = layout_of(path)
     st = model_state(path, None).split(" ")
     return "".join(st[:4]) + st[5]
 
 
+def _picklable_errors(fn):
+    """an exception class that cannot be pickled would hang the fork pool: re-raise as RuntimeError with the traceback"""
+    import functools
+    import traceback
+
+    @functools.wraps(fn)
+    def w(arg):
+        try:
+            return fn(arg)
+        except Exception:  # noqa
+            raise RuntimeError("%s%r failed:\n%s" % (fn.__name__, (arg,), traceback.format_exc())) from None
+    return w
+
+
+@_picklable_errors
 def run_chain(arg):
-    """(seedt, targets, force) -> result dict; module level for the fork pool"""
+    """(seedt, targets, force, unsync) -> result dict; module level for the fork pool"""
     seedt, targets, force, unsync = arg
     from breezy.controldir import ControlDir
     info = build_location(seedt)
     path = info["path"]
     res = dict(info=dict(source=info["source"], shared=info["shared"], dirty=info["dirty"], fmt=info["fmt"],
-                         parent=bool(info["parent"]), dirty_ops=info["dirty_ops"], nrevs=len(info["revs"])), steps=[])
+                         parent=bool(info["parent"]), dirty_ops=info["dirty_ops"], nrevs=len(info["revs"]),
+                         flags=sorted(flags_of(seedt))), steps=[])
     try:
         if unsync and info["master"]:
             # the remembered location moves on: the branches are no longer in sync
@@ -360,7 +459,7 @@ def run_chain(arg):
             mwt.add(["master-only"])
             _commit(mwt, "master moves", b"master-extra", 50)
             res["info"]["unsynced"] = True
-        res["state0"] = model_state(path, info)
+        res["state0"], res["ref0"] = model_state(path, info, want_ref=True)
         res["obs0"] = observe(path)
         for t in targets:
             try:
@@ -392,23 +491,56 @@ def tree_state(obs0, obs):
     if obs0["tree"] is not None and obs["tree"] == obs0["tree"] and obs["status"] == obs0["status"]:
         return "kept"
     st = obs["status"]
-    if not st["changes"] and len(st["parents"]) <= 1:
-        return "clean"
+    if not st["changes"] and len(st["parents"]) <= 1 and all(c[0] == "duplicate" for c in st["conflicts"]):
+        return "clean"      # ('duplicate' conflicts: files a forced destroy_workingtree left behind, moved aside)
     return "other"
+
+
+def tag_tables(obs0, ref0):
+    names = sorted(set(obs0["tags"]) | set(ref0["tags"] if ref0 else ()))
+    vals = sorted(set(obs0["tags"].values()) | set(ref0["tags"].values() if ref0 else ()))
+    return names, vals
+
+
+def enc_tags(tags, names, vals):
+    """n:v list for the model request"""
+    return ",".join("%d:%d" % (names.index(n), vals.index(v) + 1) for n, v in sorted(tags.items())) or "-"
+
+
+def show_tags(tags, names, vals):
+    """the value of every known tag name, in the model's reply format"""
+    out = []
+    for n in names:
+        v = tags.get(n)
+        out.append("-" if v is None else (str(vals.index(v) + 1) if v in vals else "?"))
+    extra = sorted(set(tags) - set(names))
+    return ",".join(out + ["+" + x for x in extra]) or "-"
 
 
 def check_chain(ctx, arg, res):
     seedt, targets, force, unsync = arg
     case = dict(seed=list(seedt), targets=list(targets), force=force, unsync=unsync)
-    ctx.case(dict(state=res.get("state0"), targets=targets, force=force, nrevs=res["info"]["nrevs"], ops=res["info"]["dirty_ops"]),
+    ctx.case(dict(state=res.get("state0"), targets=targets, force=force, nrevs=res["info"]["nrevs"], ops=res["info"]["dirty_ops"],
+                  flags=res["info"]["flags"]),
              nontrivial=any(s["out"] == "ok" for s in res["steps"]))
     ctx.count("source:%s/%s/%s" % (res["info"]["source"], "shared" if res["info"]["shared"] else "own",
                                    "dirty" if res["info"]["dirty"] else "clean"))
-    obs0 = res["obs0"]
+    ctx.count("chain:%s%s" % ("forced" if force else "checked", "+unsynced" if res["info"].get("unsynced") else ""))
+    for fl in res["info"]["flags"]:
+        ctx.count("flag:" + fl)
+    for op in res["info"]["dirty_ops"]:
+        ctx.count("dirty:" + op)
+    obs0, ref0 = res["obs0"], res["ref0"]
+    names, vals = tag_tables(obs0, ref0)
     prev = obs0
-    had_dirty = bool(obs0["status"] and (obs0["status"]["changes"] or len(obs0["status"]["parents"]) > 1))
+    prev_state = "".join(res["state0"].split(" ")[:4]) + res["state0"].split(" ")[5]
+    # what the history must look like: the observation at the start; after a FORCED replacement of the local branch by a
+    # reference to a branch with another tip (the user overrode UnsyncedBranches), that branch's history
+    base = {k: obs0[k] for k in ("tip", "revno", "testaments")}
+    reftags = dict(ref0["tags"]) if ref0 else {}
+    left_behind = False
     impl = []
-    for s in res["steps"]:
+    for idx, s in enumerate(res["steps"]):
         ctx.count("step:%s:%s" % (s["target"], s["out"]))
         if "broken" in s:
             ctx.violation(case, "after to_%s (%s) the location cannot be opened: %s" % (s["target"], s["out"], s["broken"]))
@@ -416,24 +548,55 @@ def check_chain(ctx, arg, res):
             break
         o = s["obs"]
         # ---- oracle: history, tags; the tree when one is kept; no pending change is ever lost
-        for k in ("tip", "revno", "testaments", "tags"):
-            if o[k] != obs0[k]:
-                ctx.violation(case, "to_%s (%s) changed %s: %r -> %r" % (s["target"], s["out"], k, obs0[k], o[k]))
+        switch = s["target"] == "lightweight-checkout" and s["out"] == "ok" and prev_state[2] != "r"
+        if switch and ref0 is not None and ref0["tip"] != prev["tip"]:
+            if force:
+                ctx.count("forced-switch-to-unsynced-reference")
+                base = {k: ref0[k] for k in ("tip", "revno", "testaments")}
+            else:
+                ctx.violation(case, "to_lightweight-checkout (not forced) replaced the branch by a reference to a branch with "
+                                    "another tip: %r -> %r" % (prev["tip"], ref0["tip"]))
+        for k in ("tip", "revno", "testaments"):
+            if o[k] != base[k]:
+                ctx.violation(case, "to_%s (%s) changed %s: %r -> %r" % (s["target"], s["out"], k, base[k], o[k]))
+        if switch:
+            # local tags are merged into the referenced branch: every local definition survives, nothing else appears
+            lost = sorted(n for n, v in prev["tags"].items() if o["tags"].get(n) != v)
+            for n in lost:
+                conflict = n in reftags and reftags[n] != prev["tags"][n] and o["tags"].get(n) == reftags[n]
+                ctx.violation(case, "to_lightweight-checkout changed tag %r: %r -> %r" % (n, prev["tags"][n], o["tags"].get(n)),
+                              family="reconfigure-reference-tag-conflict-local-definition-dropped" if conflict else None)
+            for n, v in o["tags"].items():
+                if prev["tags"].get(n) != v and reftags.get(n) != v:
+                    ctx.violation(case, "to_lightweight-checkout invented tag %r = %r" % (n, v))
+            reftags = dict(o["tags"])
+        elif o["tags"] != prev["tags"]:
+            ctx.violation(case, "to_%s (%s) changed tags: %r -> %r" % (s["target"], s["out"], prev["tags"], o["tags"]))
         if prev["tree"] is not None and o["tree"] is not None and (o["tree"] != prev["tree"] or o["status"] != prev["status"]):
             ctx.violation(case, "to_%s (%s) changed the working tree: %r" % (
                 s["target"], s["out"], [k for k in set(o["tree"]) | set(prev["tree"]) if o["tree"].get(k) != prev["tree"].get(k)][:4]
-                or "status"))
-        if prev["tree"] is not None and o["tree"] is None and not force:
+                or [k for k in o["status"] if o["status"][k] != prev["status"][k]]))
+        if prev["tree"] is not None and o["tree"] is None:
             st = prev["status"]
             if st["changes"] or len(st["parents"]) > 1:
-                ctx.violation(case, "to_%s destroyed a working tree with pending changes" % s["target"])
+                if not force:
+                    ctx.violation(case, "to_%s destroyed a working tree with pending changes" % s["target"])
+                else:
+                    ctx.count("forced-destroy-of-dirty-tree")
+                    left_behind = True          # modified files stay on disk
         if prev["tree"] is None and o["tree"] is not None:
             st = o["status"]
-            if st["changes"] or len(st["parents"]) != (1 if o["tip"] != "null:" else 0):
+            bad_conflicts = [c for c in st["conflicts"] if not (left_behind and c[0] == "duplicate")]
+            if st["changes"] or bad_conflicts or st["parents"] != ([o["tip"]] if o["tip"] != "null:" else []):
                 ctx.violation(case, "to_%s created a working tree that is not the clean tree of the tip" % s["target"])
-        if s["out"] != "ok" and s["out"] != "E:NoBindLocation" and s["state"] != (res["steps"][res["steps"].index(s) - 1]["state"]
-                                                                                  if res["steps"].index(s) else None) \
-                and res["steps"].index(s) > 0:
+        newghost = [p for p in o["ghost_parents"] if p not in prev["ghost_parents"] and p in (prev["status"] or {}).get("parents", [])]
+        if newghost:
+            # a pending merge is still listed, but the revision it names is gone from the branch's repository
+            ctx.violation(case, "to_%s (%s): the revision of pending merge %r is no longer in the repository of the branch"
+                          % (s["target"], s["out"], newghost),
+                          family="reconfigure-pending-merge-revision-not-copied"
+                          if len(prev["status"]["parents"]) > 1 and set(newghost) <= set(prev["status"]["parents"][1:]) else None)
+        if s["out"] not in ("ok", "E:NoBindLocation") and s["state"] != prev_state:
             ctx.count("error-changed-layout:%s" % s["out"])
         if s["out"] == "ok":
             # the layout asked for is the layout obtained (state = tree, dirty, branch kind, repository kind, ...)
@@ -444,17 +607,20 @@ def check_chain(ctx, arg, res):
             if not want:
                 ctx.violation(case, "to_%s succeeded but the location is %s (tree, dirty, branch u|b|r, repository n|o|s, "
                                     "bind location known)" % (s["target"], st))
-        impl.append("%s:%s:%s" % (s["out"], s["state"], tree_state(obs0, o)))
+        tipc = "o" if o["tip"] == obs0["tip"] else ("m" if ref0 is not None and o["tip"] == ref0["tip"] else "?")
+        impl.append("%s:%s:%s:%s:%s" % (s["out"], s["state"], tree_state(obs0, o), tipc, show_tags(o["tags"], names, vals)))
         prev = o
-    line = "chain %s %s %s" % ("T" if force else "F", ",".join(TCODE[t] for t in targets), res["state0"])
+        prev_state = s["state"]
+    line = "chain %s %s %s %s %s" % ("T" if force else "F", ",".join(TCODE[t] for t in targets), res["state0"],
+                                     enc_tags(obs0["tags"], names, vals), enc_tags(ref0["tags"], names, vals) if ref0 else "-")
     return case, line, " ".join(impl)
 
 
 def canon_model(reply, state0):
-    """a re-created clean tree is indistinguishable from the original tree when that was clean"""
+    """a re-created clean tree of the ORIGINAL tip is indistinguishable from the original tree when that was clean"""
     st = state0.split(" ")
     if st[0] == "T" and st[1] == "F":
-        return reply.replace(":clean", ":kept")
+        return " ".join(x.replace(":clean:o:", ":kept:o:") for x in reply.split(" "))
     return reply
 
 
@@ -481,16 +647,38 @@ def scenarios(ctx):
                 (("tree", True, True), "standalone"), (("checkout", False, True), "lightweight-checkout")]
         pairs = core + [p for p in pairs if p not in core]
     fmts = ["2a", "2a", "1.9", "pack-0.92"]     # (knit-era branches lack old-bound locations: upgrade stream only)
+
+    def flags(dirty, p=0.3):
+        fl = [f for f in ("xt", "gt") if rng.random() < p * 0.7]
+        if dirty:
+            fl += [f for f in ("pm", "cf", "ms") if rng.random() < p]
+        if rng.random() < p * 0.3:
+            fl.append("ct")
+        if rng.random() < p * 0.4:
+            fl.append("bh")
+        return ",".join(fl)
+
     for (source, shared, dirty), t in pairs:
         idx += 1
-        jobs.append(((ctx.seed, idx, source, shared, dirty, fmts[idx % len(fmts)] if ctx.thorough() else "2a"), [t], False,
-                     rng.random() < 0.15))
+        jobs.append(((ctx.seed, idx, source, shared, dirty, fmts[idx % len(fmts)] if ctx.thorough() else fmts[(idx + ctx.seed) % 4],
+                      flags(dirty)), [t], False, rng.random() < 0.15))
+    # every run: forced and refused replacements of a branch by a reference to a branch that has moved on / lags behind,
+    # with and without a working tree to re-create, then back again
+    for k, (source, shared, dirty, force, fl, ts) in enumerate([
+            ("checkout", False, True, True, "", ["lightweight-checkout", "tree"]),
+            ("tree", True, False, True, "bh", ["lightweight-checkout", "branch", "tree"]),
+            ("branch", False, False, True, "xt", ["lightweight-checkout", "checkout"]),
+            ("checkout", True, True, False, "", ["lightweight-checkout", "branch"]),
+            ("tree", False, True, False, "bh,xt", ["lightweight-checkout", "checkout", "lightweight-checkout"]),
+            ("tree", rng.random() < 0.5, True, True, "pm", ["branch", "tree", "lightweight-checkout"])]):
+        idx += 1
+        jobs.append(((ctx.seed, idx, source, shared, dirty, fmts[(k + ctx.seed) % 4], fl), ts, force, "bh" not in fl))
     for _ in range(ctx.pick(10, 120)):
         idx += 1
         source, shared, dirty = rng.choice(combos)
         k = rng.randint(2, 4)
-        jobs.append(((ctx.seed, idx, source, shared, dirty, rng.choice(fmts)), [rng.choice(TARGETS) for _ in range(k)],
-                     rng.random() < 0.1, rng.random() < 0.1))
+        jobs.append(((ctx.seed, idx, source, shared, dirty, rng.choice(fmts), flags(dirty, 0.4)),
+                     [rng.choice(TARGETS) for _ in range(k)], rng.random() < 0.15, rng.random() < 0.15))
     return jobs
 
 
@@ -499,43 +687,139 @@ def scenarios(ctx):
 
 UPGRADE_FORMATS = ["knit", "dirstate", "dirstate-tags", "pack-0.92", "rich-root", "rich-root-pack", "1.6", "1.6.1-rich-root",
                    "1.9", "1.9-rich-root", "1.14", "1.14-rich-root", "2a", "dirstate-with-subtree", "pack-0.92-subtree"]
-FMT_CODE = {f: i + 1 for i, f in enumerate(UPGRADE_FORMATS)}       # 0 = the default format (2a)
-FMT_CODE["2a"] = 0
 DEFAULT_TRIPLE = ("RepositoryFormat2a", "BzrBranchFormat7", "WorkingTreeFormat6")
+BRANCH_FMT = {"BzrBranchFormat5": 5, "BzrBranchFormat6": 6, "BzrBranchFormat7": 7, "BzrBranchFormat8": 8}
+TREE_FMT = {"WorkingTreeFormat3": 3, "WorkingTreeFormat4": 4, "WorkingTreeFormat5": 5, "WorkingTreeFormat6": 6}
+
+_UPLOG = []
+_UPLOG_INSTALLED = [False]
+
+
+def component_formats(cd):
+    """(repository class | None, branch class | None, working tree class | None) of ONE control directory"""
+    from breezy import errors
+    try:
+        r = type(cd.open_repository()._format).__name__
+    except errors.NoRepositoryPresent:
+        r = None
+    try:
+        # (a branch reference is followed: ConvertMetaToMeta uses list_branches(), which opens the referenced branch)
+        b = type(cd.open_branch(unsupported=True)._format).__name__
+    except errors.NotBranchError:
+        b = None
+    try:
+        t = type(cd.open_workingtree(recommend_upgrade=False)._format).__name__
+    except errors.NoWorkingTree:
+        t = None
+    return [r, b, t]
+
+
+def install_upgrade_log():
+    """record, in this process, every Convert (control dir, component formats before / after, target, outcome), every pass
+    of ConvertMetaToMeta.convert and every component converter it runs, in order"""
+    if _UPLOG_INSTALLED[0]:
+        return
+    _UPLOG_INSTALLED[0] = True
+    from breezy import upgrade, repository
+    from breezy.bzr import bzrdir, branch as bzrbranch, workingtree_4
+
+    def wrap(cls, label):
+        orig = cls.convert
+
+        def convert(self, *a, **k):
+            _UPLOG.append(label)
+            return orig(self, *a, **k)
+        cls.convert = convert
+    wrap(repository.CopyConverter, "repo")
+    wrap(bzrbranch.Converter5to6, "b5to6")
+    wrap(bzrbranch.Converter6to7, "b6to7")
+    wrap(bzrbranch.Converter7to8, "b7to8")
+    wrap(workingtree_4.Converter3to4, "t3to4")
+    wrap(workingtree_4.Converter4to5, "t4to5")
+    wrap(workingtree_4.Converter4or5to6, "t4or5to6")
+    wrap(bzrdir.ConvertMetaToMeta, "/")
+    wrap(bzrdir.ConvertMetaToColo, "colo")
+    orig_init = upgrade.Convert.__init__
+
+    def init(self, url=None, format=None, control_dir=None):
+        from breezy.controldir import ControlDir
+        cd = control_dir if control_dir is not None else ControlDir.open_unsupported(url)
+        if format is None:
+            target = list(DEFAULT_TRIPLE)
+        else:
+            target = [type(format.repository_format).__name__, type(format.get_branch_format()).__name__,
+                      type(format.workingtree_format).__name__]
+        rec = dict(dir=cd.user_url.rstrip("/").rsplit("/", 1)[-1], before=component_formats(cd), target=target,
+                   meta=type(cd._format).__name__, meta_target=type(format).__name__ if format is not None else None)
+        _UPLOG.append(rec)
+        start = len(_UPLOG)
+        try:
+            orig_init(self, url=url, format=format, control_dir=control_dir)
+            rec["out"] = "ok"
+        except Exception as e:  # noqa
+            rec["out"] = "E:" + type(e).__name__
+            raise
+        finally:
+            rec["steps"] = _UPLOG[start:]
+            del _UPLOG[start:]
+            try:
+                rec["after"] = component_formats(ControlDir.open_unsupported(cd.user_url))
+            except Exception as e:  # noqa
+                rec["after"] = "E:" + type(e).__name__
+    upgrade.Convert.__init__ = init
 
 
 def formats_of(path):
     from breezy.controldir import ControlDir
+    from breezy import errors
     cd = ControlDir.open(path)
-    return (type(cd.find_repository()._format).__name__, type(cd.open_branch()._format).__name__,
-            type(cd.open_workingtree()._format).__name__, type(cd._format).__name__)
+    try:
+        t = type(cd.open_workingtree()._format).__name__
+    except errors.NoWorkingTree:
+        t = None
+    br = cd.open_branch()
+    return (type(br.repository._format).__name__, type(br._format).__name__, t, type(cd._format).__name__)
 
 
+@_picklable_errors
 def run_upgrade(arg):
     """(seedt, target format name | None) -> result dict"""
     seedt, target = arg
     from breezy import upgrade
     from breezy.controldir import format_registry
+    install_upgrade_log()
     info = build_location(seedt)
-    res = dict(fmt=info["fmt"], target=target, shared=info["shared"], source=info["source"], dirty=info["dirty"])
+    res = dict(fmt=info["fmt"], target=target, shared=info["shared"], source=info["source"], dirty=info["dirty"],
+               dirty_ops=info["dirty_ops"], flags=sorted(flags_of(seedt)))
     try:
         path = info["path"]
-        res["obs0"] = observe(path)
+        path2 = os.path.join(os.path.dirname(path), "loc2")
+        res["obs0"] = observe(path, locations=True)
         res["f0"] = formats_of(path)
+        if os.path.isdir(path2):
+            res["second0"] = observe(path2, locations=True)
         todo = [path]
         if info["shared"]:
             todo = [os.path.dirname(path)]          # the shared repository (its branches are upgraded with it)
+        elif info["source"] in ("checkout", "lightweight-checkout") and "um" in flags_of(seedt):
+            todo = [info["master"], path]           # the master first, then what was checked out of it
+        del _UPLOG[:]
         try:
             excs = []
             for p in todo:
                 excs += upgrade.upgrade(p, None if target is None else format_registry.make_controldir(target), clean_up=True)
             res["out"] = "ok" if not excs else "E:" + type(excs[0]).__name__
+            if excs:
+                res["errtext"] = str(excs[0])[:200]
         except Exception as e:  # noqa
             res["out"] = "E:" + type(e).__name__
             res["errtext"] = str(e)[:200]
+        res["log"] = [x for x in _UPLOG if isinstance(x, dict)]
         try:
-            res["obs"] = observe(path)
+            res["obs"] = observe(path, locations=True)
             res["f1"] = formats_of(path)
+            if os.path.isdir(path2):
+                res["second"] = observe(path2, locations=True)
             res["leftovers"] = sorted(n for n in os.listdir(path) if n.startswith("backup.bzr"))
         except Exception as e:  # noqa
             res["broken"] = "%s: %s" % (type(e).__name__, str(e)[:200])
@@ -544,34 +828,131 @@ def run_upgrade(arg):
     return res
 
 
+def upgrade_lines(res):
+    """one model request + the implementation's reply in the model's format per Convert the upgrade made"""
+    out = []
+    obs0 = res["obs0"]
+    for rec in res["log"]:
+        if rec["meta_target"] not in (None, "BzrDirMetaFormat1") or rec["meta"] != "BzrDirMetaFormat1" or isinstance(rec["after"], str):
+            out.append(None)            # a control directory format change (development-colo): not ConvertMetaToMeta
+            continue
+        rnames = sorted(set(x for x in (rec["before"][0], rec["target"][0], rec["after"][0]) if x))
+        rid = lambda x: "~" if x is None else str(rnames.index(x) + 1)           # noqa
+        bid = lambda x: "~" if x is None else str(BRANCH_FMT.get(x, 99))          # noqa
+        tid = lambda x: "~" if x is None else str(TREE_FMT.get(x, 99))            # noqa
+        mine = rec["dir"] == "loc"
+        n = obs0["revno"] if rec["dir"] in ("loc", "master") else 1
+        parents0 = (obs0["status"]["parents"] if obs0["status"] else []) if mine and rec["before"][2] else None
+        pm = max(0, len(parents0) - 1) if parents0 is not None else 0
+        line = "upgrade %s %s %s %s %s %s %d %d" % (rid(rec["before"][0]), bid(rec["before"][1]), tid(rec["before"][2]),
+                                                    rid(rec["target"][0]), bid(rec["target"][1]), tid(rec["target"][2]), n, pm)
+        passes = []
+        for x in rec["steps"]:
+            if x == "/":
+                passes.append([])
+            elif passes:
+                passes[-1].append(x)
+        ptxt = "/".join("+".join(p) or "0" for p in passes) or "-"
+        a = rec["after"]
+        kind = {"ok": "ok", "E:UpToDateFormat": "E:UpToDate", "E:BadConversionTarget": "E:BadConversionTarget"}.get(rec["out"], rec["out"])
+        # last_revision_info and the tree's parents as OBSERVED afterwards (for the location under test), in the model's
+        # numbering: mainline revision k is k, pending merge i is 100 + i
+        info = "~" if a[1] is None else "%d.%d" % (n, n)
+        par = "~" if a[2] is None else (",".join([str(n)] * (1 if n else 0) + [str(100 + i) for i in range(pm)]) or "-")
+        if mine and "obs" in res:
+            o = res["obs"]
+            if a[1] is not None:
+                info = "%d.%s" % (o["revno"], n if o["tip"] == obs0["tip"] else "?")
+            if a[2] is not None and parents0 is not None and o["status"]:
+                num = {obs0["tip"]: str(n)}
+                num.update({p: str(100 + i) for i, p in enumerate(parents0[1:])})
+                par = ",".join(num.get(p, "?") for p in o["status"]["parents"]) or "-"
+        out.append((line, "%s %s %s %s %s %s %s T" % (kind, rid(a[0]), bid(a[1]), tid(a[2]), ptxt, info, par)))
+    return out
+
+
 def check_upgrade(ctx, arg, res):
+    """-> case, [(model request, implementation reply in the model's format)]"""
     seedt, target = arg
     case = dict(seed=list(seedt), upgrade_to=target or "default")
-    ctx.case(dict(fmt=res["fmt"], target=target, shared=res["shared"], dirty=res["dirty"], source=res["source"]),
+    ctx.case(dict(fmt=res["fmt"], target=target, shared=res["shared"], dirty=res["dirty"], source=res["source"],
+                  flags=res["flags"], ops=res["dirty_ops"]),
              nontrivial=res.get("f0") != res.get("f1"))
     ctx.count("upgrade:%s->%s:%s" % (res["fmt"], target or "default", res.get("out")))
+    ctx.count("upgrade-source:%s/%s%s" % (res["source"], "shared" if res["shared"] else "own",
+                                          "".join("+" + f for f in res["flags"])))
+    for op in res["dirty_ops"]:
+        ctx.count("upgrade-dirty:" + op)
     if "broken" in res:
         ctx.violation(case, "after upgrading %s the location cannot be opened: %s" % (res["fmt"], res["broken"]))
-        return case, "convert %d 0" % FMT_CODE[res["fmt"]], "broken"
-    for k in res["obs0"]:
-        if res["obs"][k] != res["obs0"][k]:
-            a, b = res["obs0"][k], res["obs"][k]
-            detail = ""
-            if isinstance(a, dict) and isinstance(b, dict):
-                detail = repr([(x, a.get(x), b.get(x)) for x in sorted(set(a) | set(b), key=str) if a.get(x) != b.get(x)][:3])
-            ctx.violation(case, "upgrade %s -> %s changed %s %s" % (res["fmt"], target or "default", k, detail))
-    if res["out"] == "ok" and target is None and res["f1"][:3] != DEFAULT_TRIPLE:
-        ctx.violation(case, "upgrade of %s reports success but the formats are %r" % (res["fmt"], res["f1"]))
+        return case, []
+    for a0, a1, what in ((res["obs0"], res["obs"], ""), (res.get("second0"), res.get("second"), "of the second branch ")):
+        if a0 is None:
+            continue
+        for k in a0:
+            if a1[k] != a0[k]:
+                a, b = a0[k], a1[k]
+                detail = ""
+                if isinstance(a, dict) and isinstance(b, dict):
+                    detail = repr([(x, a.get(x), b.get(x)) for x in sorted(set(a) | set(b), key=str) if a.get(x) != b.get(x)][:3])
+                else:
+                    detail = "%r -> %r" % (a, b)
+                ctx.violation(case, "upgrade %s -> %s changed %s%s %s" % (res["fmt"], target or "default", what, k, detail))
+    if res["out"] == "ok" and target is None:
+        want = DEFAULT_TRIPLE if res["f1"][2] is not None else DEFAULT_TRIPLE[:2] + (None,)
+        if res["source"] == "lightweight-checkout" and "um" not in res["flags"]:
+            # the repository of the referenced branch is not touched; the referenced branch itself IS converted
+            # (ConvertMetaToMeta follows the reference), although upgrade says it "needs to be upgraded separately"
+            want = (res["f0"][0], DEFAULT_TRIPLE[1], DEFAULT_TRIPLE[2])
+            ctx.count("upgrade-through-reference:%s->%s" % (res["f0"][1], res["f1"][1]))
+        if res["f1"][:3] != want:
+            ctx.violation(case, "upgrade of %s reports success but the formats are %r" % (res["fmt"], res["f1"]))
     if res["out"] != "ok":
         ctx.violation(case, "upgrade of %s failed: %s %s" % (res["fmt"], res["out"], res.get("errtext", "")))
     if res.get("leftovers"):
         ctx.count("backup-left")
-    impl = "uptodate" if res["f0"] == res["f1"] else "ok %d" % (0 if res["f1"][:3] == DEFAULT_TRIPLE and target is None else 99)
-    tcode = 0 if target is None else 99
-    return case, "convert %d %d" % (FMT_CODE[res["fmt"]] if res["f0"][:3] != DEFAULT_TRIPLE or target else 0, tcode), impl
+    pairs = []
+    for rec, lp in zip(res["log"], upgrade_lines(res)):
+        ctx.count("convert:%s:%s" % ("/".join("%s" % (x or "-") for x in rec["before"]), rec["out"]))
+        if lp is None:
+            ctx.count("convert-not-modelled:%s" % rec["meta_target"])
+        else:
+            pairs.append(lp)
+    return case, pairs
 
 
 # --------------------------------------------------------------------------
+
+def upgrade_jobs(ctx):
+    ujobs = []
+    if ctx.thorough():
+        fmts = UPGRADE_FORMATS
+    else:
+        # every run covers every converter class (branch 5 -> 6 -> 7 -> 8, tree 3 -> 4 -> 5 -> 6, knit / pack -> 2a):
+        # knit (branch 5, tree 3), dirstate-tags (branch 6, tree 4), 1.14 (branch 7, tree 5) first, then the others
+        fmts = ["knit", "dirstate-tags", "1.14"] + [f for f in UPGRADE_FORMATS if f not in ("knit", "dirstate-tags", "1.14")]
+    # source kinds: (source, shared, flags)
+    kinds = [("tree", False, "pm,cf"), ("checkout", False, "ms"), ("tree", True, "b2,pm"), ("branch", False, ""),
+             ("lightweight-checkout", False, "um,pm"), ("branch", True, "b2"), ("lightweight-checkout", False, ""),
+             ("checkout", False, "um,cf,gt"), ("tree", False, "gt,ms")]
+    idx = 1000
+    for i, f in enumerate(fmts):
+        for k in range(ctx.pick(1, 4)):
+            idx += 1
+            source, shared, fl = kinds[(i + k * 2 + ctx.seed) % len(kinds)] if (ctx.thorough() or i >= 3) else kinds[k]
+            if ctx.thorough() and k == 3:
+                source, shared, fl = kinds[ctx.rng.randrange(len(kinds))]
+            ujobs.append(((ctx.seed, idx, source, shared, source != "branch", f, fl), None))
+    if not ctx.thorough():
+        # the three converter-chain formats also from a second source kind, rotating
+        for j, f in enumerate(("knit", "dirstate-tags", "1.14")):
+            idx += 1
+            source, shared, fl = kinds[3 + (ctx.seed + j) % (len(kinds) - 3)]
+            ujobs.append(((ctx.seed, idx, source, shared, source != "branch", f, fl), None))
+    idx += 1
+    ujobs.append(((ctx.seed, idx, "tree", False, True, "2a", ""), "development-colo"))
+    return ujobs
+
 
 def run(ctx):
     jobs = scenarios(ctx)
@@ -588,26 +969,12 @@ def run(ctx):
             ctx.count("excluded:incompatible-repositories")
             continue
         cases.append(c); lines.append(l); impls.append(i); states.append(r["state0"])
-    ujobs = []
-    if ctx.thorough():
-        fmts = UPGRADE_FORMATS
-    else:
-        # every run covers every converter class (branch 5 -> 6 -> 7 -> 8, tree 3 -> 4 -> 5 -> 6, knit / pack -> 2a):
-        # knit (branch 5, tree 3), dirstate-tags (branch 6, tree 4), 1.14 (branch 7, tree 5) + two rotating formats
-        rest = [f for f in UPGRADE_FORMATS if f not in ("knit", "dirstate-tags", "1.14")]
-        fmts = ["knit", "dirstate-tags", "1.14"] + [rest[(ctx.seed * 2 + j) % len(rest)] for j in range(2)]
-    idx = 1000
-    for f in fmts:
-        for k in range(ctx.pick(1, 3)):
-            idx += 1
-            source = ["tree", "checkout", "tree"][k % 3]
-            ujobs.append(((ctx.seed, idx, source, k == 2, True, f), None))
-    idx += 1
-    ujobs.append(((ctx.seed, idx, "tree", False, True, "2a"), "development-colo"))
+    ujobs = upgrade_jobs(ctx)
     uresults = ctx.pmap(run_upgrade, ujobs)
     for a, r in zip(ujobs, uresults):
-        c, l, i = check_upgrade(ctx, a, r)
-        cases.append(c); lines.append(l); impls.append(i); states.append(None)
+        c, pairs = check_upgrade(ctx, a, r)
+        for l, i in pairs:
+            cases.append(c); lines.append(l); impls.append(i); states.append(None)
     if ctx.model_available and lines:
         outs = ctx.model(lines)
         for c, l, i, m, st in zip(cases, lines, impls, outs, states):
@@ -627,6 +994,8 @@ def replay(ctx, case):
         return dict(case=case, impl=i, model=m, agree=(i == m), oracle_failures=[v["what"] for v in ctx.violations])
     arg = (tuple(case["seed"]), None if case["upgrade_to"] == "default" else case["upgrade_to"])
     r = run_upgrade(arg)
-    c, l, i = check_upgrade(ctx, arg, r)
-    m = ctx.model([l])[0] if ctx.model_available else None
-    return dict(case=case, impl=i, model=m, agree=(i == m), oracle_failures=[v["what"] for v in ctx.violations])
+    c, pairs = check_upgrade(ctx, arg, r)
+    i = [x[1] for x in pairs]
+    m = ctx.model([x[0] for x in pairs]) if ctx.model_available and pairs else []
+    return dict(case=case, impl=i, model=m, agree=(i == m), log=r.get("log"), out=r.get("out"),
+                oracle_failures=[v["what"] for v in ctx.violations])
